@@ -2675,7 +2675,14 @@ func (dsc *dataStoreCommand) setOperationCount(
 func (dsc *dataStoreCommand) diffWorker(firstKey string, keyNames ...string) (d *redisDict, wrongType bool) {
 	sk, objExists := dsc.getKeyObjectUnlocked(firstKey)
 	if !objExists {
+		// the difference is empty, but every other key still has to be a set
 		d = newRedisDict()
+		for _, keyName := range keyNames {
+			if sk2, exists := dsc.getKeyObjectUnlocked(keyName); exists && sk2.getSet() == nil {
+				wrongType = true
+				return
+			}
+		}
 		return
 	}
 
